@@ -32,7 +32,15 @@ class List(Expression):
         return not self.min_len or self.min_len == '0'
 
     def can_partially_succeed(self):
-        return not self.always_succeeds() and self.expr.can_partially_succeed()
+        if self.always_succeeds():
+            return False
+
+        # With a lower bound above one, the list can consume some elements and
+        # still fail.
+        if self.min_len != 1 and self.min_len != '1':
+            return True
+
+        return self.expr.can_partially_succeed()
 
     def _compile(self, out, flags):
         if self.max_len == 0 or self.max_len == '0':
